@@ -12,8 +12,9 @@ TRUSTED = [
     "0 <= x < m*R, which holds at every call of the loops); their digit-level correctness is the Mod family's / C02's subject",
     "bn_mxp_sim (= bn_mxp_sim_few at n = 2) and bn_mxp_sim_few for every n are class A as well (mxpSim / mxpSimFew, theorems mxp_sim_exact, mxp_sim_few_exact: "
     "table built block by block with unbuilt blocks for zero exponents, one squaring + one table multiplication per bit of the longest exponent; the signs of the exponents are "
-    "ignored — known finding C09-ext-mxp-1 —, no zero-exponent exit, even modulus -> error, n = 0 leaves the result untouched, n > 8 -> error); class C in the Mxp family: "
-    "bn_mxp_sim_lot is modelled and executed as well (mxpSimLot)",
+    "ignored — known finding C09-ext-mxp-1 —, no zero-exponent exit, even modulus -> error, n = 0 leaves the result untouched, n > 8 -> error); bn_mxp_sim_lot is class A too "
+    "(mxpSimLot: blocks of 8 through bn_mxp_sim_few, a single leftover through bn_mxp, products reduced by bn_mod; theorem mxp_sim_lot_exact for odd m > 1 and exponents >= 0); "
+    "nothing of the Mxp family is left in class C except the digit-level Montgomery reduction (taken by value) and out-of-contract inputs judged by the model alone",
 ]
 
 # odd primes for Legendre / CRT lines (all below 2^256 so that they fit RLC_BN_DIGS of both configurations)
